@@ -1,0 +1,11 @@
+//go:build !verif
+
+package jsonpatch
+
+// Verification hooks (build tag "verif"). Without the tag they are empty and
+// inline to nothing.
+
+func verifApplyBegin(options *ApplyOptions, p Patch)                  {}
+func verifOpDone(options *ApplyOptions, op Operation, err error)      {}
+func verifApplyEnd(options *ApplyOptions, pd container)               {}
+func verifCopyAccounted(options *ApplyOptions, size int, total int64) {}
